@@ -270,3 +270,22 @@ Definition if_calls_ok (pfnames : list str) (lib : list tpl) (cond : enc) (more 
   plain cond && forallb (forallb (flat_item pfnames lib)) more.
 Definition if_calls_result (lib : list tpl) (cond : enc) (more : list enc) : enc :=
   add_newline (strip_i (page_result lib (match strip_i cond with [] => nth 1 more [] | _ => nth 0 more [] end))).
+
+(* {{#ifeq: x | y | a | b}} with plain x and y and branches of text and flat calls *)
+Definition ifeq_calls_ok (pfnames : list str) (lib : list tpl) (x : enc) (more : list enc) : bool :=
+  plain x && plain (nth 0 more []) && forallb (forallb (flat_item pfnames lib)) more.
+Definition ifeq_calls_result (lib : list tpl) (x : enc) (more : list enc) : enc :=
+  add_newline (strip_i (page_result lib (if mw_equal (codes (strip_i x)) (codes (strip_i (nth 0 more [])))
+                                          then nth 1 more [] else nth 2 more []))).
+
+(* {{#switch: x | k1 = v1 | ... }} with plain x and keys and values of text and flat calls: the value of the first case
+   whose key equals x, else of the last "#default = v" case, with its calls replaced by their results, trimmed *)
+Definition case_calls_ok (pfnames : list str) (lib : list tpl) (kv : enc * enc) : bool :=
+  plain (fst kv) && forallb (fun i => negb (is_code 61 i) && negb (is_code 60 i)) (fst kv)
+  && forallb (flat_item pfnames lib) (snd kv).
+Fixpoint switch_calls_result (lib : list tpl) (val : enc) (cases : list (enc * enc)) (defval : option enc) : enc :=
+  match cases with
+  | [] => match defval with Some d => strip_i (page_result lib d) | None => [] end
+  | (k, v) :: r => if mw_equal (codes (strip_i k)) (codes val) then strip_i (page_result lib v)
+                   else switch_calls_result lib val r (if str_eqb (lower (codes (strip_i k))) s_default then Some v else defval)
+  end.
